@@ -315,7 +315,20 @@ class Sim(object):
                   appendEntriesUseBatch=c.get('use_batch', True), dynamicMembershipChange=c.get('dyn', False),
                   logCompactionMinEntries=c.get('min_entries', 10 ** 9), logCompactionMinTime=float(c.get('min_time', 10 ** 9)),
                   commandsQueueSize=c.get('queue', 1000), commandsWaitLeader=c.get('wait_leader', True),
-                  useFork=False, onStateChanged=lambda o, n, nid=nid: self.roles.append((nid, o, n)))
+                  useFork=bool(c.get('fork')), onStateChanged=lambda o, n, nid=nid: self.roles.append((nid, o, n)))
+        if c.get('custom') and nid < RO_BASE:
+            # user-supplied serializer functions: the application stores its own state next to the Raft data
+            def ser(fileName, data, nid=nid):
+                with open(fileName, 'wb') as f:
+                    _pickle.dump((list(self.nodes[nid].history), data), f, 2)
+
+            def deser(fileName, nid=nid):
+                with open(fileName, 'rb') as f:
+                    hist, data = _pickle.load(f)
+                self.nodes[nid].history = list(hist)
+                return data
+            kw['serializer'] = ser
+            kw['deserializer'] = deser
         if c.get('journal') == 'file' and nid < RO_BASE:
             kw['journalFile'] = os.path.join(self.workdir, 'journal_%d' % nid)
         if c.get('dump') == 'file' and nid < RO_BASE:
